@@ -39,11 +39,11 @@ CLAIMED = {
         note=NOTE + "crate cobs 0.2.3 decode_in_place / decode_in_place_report (transcribed from dec.rs, compared on every case)",
         design="5 (C07)"),
     'C08': dict(
-        text="C08_every_chunking: for EVERY list of chunks (the chunking is universally quantified), capacity and target type, driving the documented feed loop chunk by chunk reports exactly the events of a byte-stream reference semantics on the concatenation and leaves exactly its tail buffered, provided every segment and the tail fit; C08_one_result_per_frame / C08_exactly_once: on a stream of zero-terminated segments that is one result per zero byte in order, equal to decoding each segment in isolation; C08_conservation: remainder = tail of the chunk. Correspondence: every feed call of every explored chunking compared with the model including the implementation's buffered bytes (cfg hook); exhaustive chunkings of short streams.",
+        text="C08_every_chunking: for EVERY list of chunks (the chunking is universally quantified), capacity and target type, driving the documented feed loop chunk by chunk reports exactly the events of a byte-stream reference semantics on the concatenation and leaves exactly its tail buffered, provided every segment and the tail fit; C08_one_result_per_frame / C08_exactly_once: on a stream of zero-terminated segments that is one result per zero byte in order, equal to decoding each segment in isolation; C08_conservation: remainder = tail of the chunk. Correspondence: every feed call of every explored chunking compared with the model including the implementation's buffered bytes (cfg hook); exhaustive chunkings of short streams. C08_step_is_the_source: the accumulator step these theorems are about equals, on every state and chunk, the interpretation of the statement tree of CobsAccumulator::feed_ref translated from accumulator.rs on every run.",
         note=NOTE + "from_bytes_cobs is the C07-verified model; const-generic capacities instantiated finitely in the harness",
         design="5 (C08)"),
     'C09': dict(
-        text="C09_feed_total (no panic / out-of-range slice for any state and input, capacity preserved), C09_reset_after_zero (initial state after every zero byte; remainder = what follows it), C09_overflow_reported (an over-long segment yields an OverFull event under every chunking), C09_loop_terminates (the documented loop never exhausts 2*len+2 iterations for capacity >= 1) and C09_capacity_zero_stalls (why >= 1). Correspondence and direct oracles on streams with over-long segments, garbage, capacity = frame-1/frame/frame+1, exhaustive chunkings.",
+        text="C09_feed_total (no panic / out-of-range slice for any state and input, capacity preserved), C09_reset_after_zero (initial state after every zero byte; remainder = what follows it), C09_overflow_reported (an over-long segment yields an OverFull event under every chunking), C09_loop_terminates (the documented loop never exhausts 2*len+2 iterations for capacity >= 1) and C09_capacity_zero_stalls (why >= 1). Correspondence and direct oracles on streams with over-long segments, garbage, capacity = frame-1/frame/frame+1, exhaustive chunkings. C09_step_is_the_source: the accumulator step these theorems are about equals, on every state and chunk, the interpretation of the statement tree of CobsAccumulator::feed_ref translated from accumulator.rs on every run.",
         note=NOTE + "as C08",
         design="5 (C09)"),
     'C10': dict(
